@@ -1,5 +1,8 @@
 import NmlVerif.Model.XmlText
+import NmlVerif.Model.XmlBind
 import NmlVerif.Gen.Quote
+import NmlVerif.Gen.Bindings
+import NmlVerif.Gen.BindingNames
 import NmlVerif.DrvCommon
 /-! Text-level driver (C01 / C04): the support functions as regenerated from nml.py, the serialiser and the reader. -/
 open Lean NmlVerif.XmlText Drv
@@ -26,6 +29,29 @@ def parseExtra (j : Json) : List CAttr :=
     | .arr #[.str w, .str n, .str q, .str raw] => some { ws := w.toList, name := n.toList, ws1 := [], ws2 := [], quote := (q.toList.headD '"'), raw := raw.toList }
     | _ => none
 
+open NmlVerif.Binding NmlVerif.XmlBind in
+partial def parseObj (j : Json) : Obj :=
+  let c := getNat j "c"
+  let attrs := (getArr j "a").toList.map fun p =>
+    match p with
+    | .arr #[m, v] => ((m.getNat?.toOption).getD 0, optStr v)
+    | _ => (0, none)
+  let kids := (getArr j "k").toList.map fun p =>
+    match p with
+    | .arr #[m, .arr xs] => ((m.getNat?.toOption).getD 0, xs.toList.map parseObj)
+    | _ => (0, [])
+  .mk c attrs (optStr (getObj j "t")) kids
+
+def jOptStr (s : Option String) : Json := match s with | some x => Json.str x | none => Json.null
+
+open NmlVerif.Binding in
+partial def objJ : Obj → Json
+  | .mk c as t ks => Json.mkObj [("c", c), ("a", Json.arr (as.map fun (m, v) => Json.arr #[m, jOptStr v]).toArray), ("t", jOptStr t),
+      ("k", Json.arr (ks.map fun (m, xs) => Json.arr #[m, Json.arr (xs.map objJ).toArray]).toArray)]
+
+def flatT := NmlVerif.Binding.flatten NmlVerif.Gen.Bindings.table
+def namesT := NmlVerif.Gen.BindingNames.xmlNames
+
 def handle (j : Json) : Json :=
   let s := (getStr j "s").toList
   match getStr j "op" with
@@ -39,6 +65,16 @@ def handle (j : Json) : Json :=
   | "fmt_int" => Json.mkObj [("r", jS (fmtInt (getInt j "i")))]
   | "fmt_bool" => Json.mkObj [("r", jS (NmlVerif.Gen.Quote.gds_format_boolean (getBool j "b")))]
   | "serialise" => Json.mkObj [("r", jS (serialiseDoc (parseExtra j) (getNat j "fuel") (parseT (getObj j "tree"))))]
+  | "write_obj" =>
+    if NmlVerif.XmlBind.known namesT (getNat j "tag") then
+      match NmlVerif.XmlBind.writeObj namesT flatT (getNat j "fuel") (getNat j "tag") (parseObj (getObj j "obj")) with
+      | some t => Json.mkObj [("r", jS t)]
+      | none => Json.mkObj [("err", "export")]
+    else Json.mkObj [("skip", "tag")]
+  | "read_obj" =>
+    match NmlVerif.XmlBind.readObj namesT flatT (getNat j "fuel") (getNat j "cls") s with
+    | some o => Json.mkObj [("ok", objJ o)]
+    | none => Json.mkObj [("err", "read")]
   | "parse" =>
     match parse s with
     | some t => Json.mkObj [("ok", tJ t)]
